@@ -473,6 +473,7 @@ class Exec:
 
     def index(self, st, o, i, line=None):
         if o.kind == 'opaque' or i.kind == 'opaque': return V('opaque')
+        if o.kind == 'comp': o = self.materialise(st, o)
         if o.kind in ('seq',):
             it = toint(i)
             L = z3.Length(o.t)
